@@ -272,6 +272,7 @@ static int recv_events(m_ctx_t *c, int timeout) {
             m_mod_t *mod = p->mod;
             evt_priv_t *evt = new_evt(p);
             m_evt_t *msg = NULL;
+            errno = 0; // whatever user callbacks of previous events left there is not ours
             if (evt) {
                 msg = &evt->evt;
                 fetch_ms(&msg->ts, NULL);
